@@ -67,22 +67,52 @@ def mutants(syn, b, rng, tier, others):
     return out
 
 
-def classify_crash(run, err):
-    """(finding id | None) for a sanitizer report / signal"""
+def classify_crash(err, rc, meta, tree):
+    """finding id or None for a dying decoder: site (innermost library frames) + input shape"""
+    site = stack_site(err)
+    funcs = [f.split("@")[0] + "@" + f.split("@")[1].split(":")[0] for f in site]
+    syn, data = meta["syn"], meta["data"]
+    if (rc == 99 and syn == "ber" and funcs and
+            (funcs[0] == "CHOICE_decode_ber@constr_CHOICE.c" or (funcs[0] == "ber_fetch_tag@ber_tlv_tag.c" and funcs[1:2] == ["CHOICE_decode_ber@constr_CHOICE.c"]))
+            and (tree is None or has_tagged_choice(tree)) and eoc_zero_nonzero(data)):
+        return "C04-choice-ber-eoc-loop"
+    if ("heap-buffer-overflow" in (err or "") and "READ of size 1" in err and syn == "oer" and funcs[:1] == ["INTEGER_decode_oer@INTEGER_oer.c"]
+            and (tree is None or has_oer_positive_varlen_int(tree)) and oer_zero_length_tail(data)):
+        return "C04-oer-integer-empty-contents"
     return None
 
 
-def report_crash(run, m, line, kind, info, layer):
+def eoc_zero_nonzero(data):
+    """an indefinite length octet followed, later, by a zero octet and a non-zero octet: `00 xx` where
+    end-of-contents octets are expected"""
+    i = data.find(b"\x80", 1)
+    return i >= 0 and any(data[j] == 0 and data[j + 1] != 0 for j in range(i + 1, len(data) - 1))
+
+
+def oer_zero_length_tail(data):
+    """the buffer ends with a length determinant denoting zero octets: 00, 80, 81 00, 82 00 00, ..."""
+    for k in range(0, 9):
+        tail = bytes([0x80 | k]) + b"\x00" * k
+        if data.endswith(tail):
+            return True
+    return data.endswith(b"\x00")
+
+
+def report_crash(run, m, line, meta, info, layer):
     what, rc, err = info
     site = stack_site(err)
-    fid = classify_crash(run, err)
+    tree = m["trees"].get(meta["tn"]) if m.get("trees") else None
+    fid = classify_crash(err, rc, meta, tree)
     if fid:
         run.known_finding(fid, line)
+        run.count("known_" + fid)
         return
     summ = re.findall(r"(SUMMARY: [^\n]*|runtime error: [^\n]*)", err or "")
+    how = "did not terminate within its CPU budget (hang)" if rc == 99 else "died (rc=%s, %s): sanitizer report, abort or signal" % (rc, what)
     run.violation("crash:%s:%s" % (layer, (site[0] if site else what)),
-                  {"what": "decoder process died (rc=%s, %s) on %s input: sanitizer report, abort or signal" % (rc, what, kind),
-                   "summary": summ[:3], "frames": site, "module": m["text"], "command_line": line, "stderr_tail": (err or "")[-3000:],
+                  {"what": "decoder process %s on a %s input" % (how, meta["kind"]),
+                   "summary": summ[:3], "frames": site, "module": m["text"], "type": meta["tn"], "syntax": meta["syn"], "command_line": line,
+                   "stderr_tail": (err or "")[-3000:],
                    "replay_cmd": "echo '<command_line>' | <moddrv of the module built with harness/moddrv_c04.inc>"})
 
 
@@ -107,8 +137,10 @@ def check_c_line(run, m, line, o, meta, layer, tainted=None):
         elif r["der"] == "ENCFAIL" and r["ck"] == 0:
             run.violation("oracle:%s:not-reencodable" % layer, dict(rep, what="RC_OK, constraints hold, but the structure cannot be DER-encoded"))
         if r["re"] == "FAIL" and r["ck"] == 0:
-            if tainted and tainted(meta):
-                run.known_finding(tainted(meta), line)
+            fid = tainted(meta, r) if tainted else None
+            if fid:
+                run.known_finding(fid, line)
+                run.count("known_" + fid)
             else:
                 run.violation("oracle:%s:not-reencodable(%s)" % (layer, syn), dict(rep, what="RC_OK, constraints hold, but the structure cannot be re-encoded in the syntax it was decoded from"))
         if kind == "trunc":
@@ -118,15 +150,28 @@ def check_c_line(run, m, line, o, meta, layer, tainted=None):
     return r
 
 
-def uper_taint(m):
-    def t(meta):
-        if meta["syn"] != "uper":
-            return None
+def reencode_taint(m):
+    """known reasons for an accepted value not to be re-encodable in the syntax it came in"""
+    def t(meta, r):
         tree = m["trees"].get(meta["tn"])
-        if tree is not None and C01.has_semi_lb(tree):
+        if tree is None:
+            return None
+        if meta["syn"] == "uper" and C01.has_semi_lb(tree):
             return "C01-uper-semiconstrained-lb"
+        if meta["syn"] in ("oer", "uper") and has_unsigned_native(tree) and der_has_negative_prim(r["der"]):
+            return "C16-ulong-signed"
         return None
     return t
+
+
+def der_has_negative_prim(derhex):
+    """the DER the C printed holds a primitive TLV whose contents start with the sign bit set (an unsigned long >= 2^63 printed
+    through the signed path)"""
+    try:
+        b = bytes.fromhex(derhex)
+    except ValueError:
+        return False
+    return any((not cons) and c1 > c0 and b[c0] >= 0x80 for (t0, l0, c0, c1, cons, d) in ber_walk(b))
 
 
 def model_layer(run, rng, tier, model):
@@ -148,7 +193,7 @@ def model_layer(run, rng, tier, model):
         for c, o in zip(cs, xo):
             c["xer"] = o.split()[1] if o.startswith("OK ") else "NONE"
         for k, info in xe.items():
-            report_crash(run, m, xl[k], "valid", info, "model")
+            report_crash(run, m, xl[k], {"tn": xl[k].split()[1], "syn": "ber", "kind": "valid", "data": b""}, info, "model")
         lines, metas, seen = [], [], set()
         bytype = {}
         for c in cs:
@@ -171,17 +216,17 @@ def model_layer(run, rng, tier, model):
         jobs.append((m, lines, metas))
     for m, lines, metas in jobs:
         outs, errs = run_par(m["exe"], lines)
-        taint = uper_taint(m)
+        taint = reencode_taint(m)
         results = []
         for i, (l, o, me) in enumerate(zip(lines, outs, metas)):
             run.case(l)
             run.count("mut_" + me["kind"].split("+")[-1])
             if i in errs and errs[i][0] == "CRASH":
-                report_crash(run, m, l, me["kind"], errs[i], "model")
+                report_crash(run, m, l, me, errs[i], "model")
                 results.append(None)
                 continue
             if i in errs:          # leak report at exit although every live delta was 0: harness-level
-                report_crash(run, m, l, "exit", errs[i], "model")
+                report_crash(run, m, l, dict(me, kind="exit"), errs[i], "model")
             results.append(check_c_line(run, m, l, o.replace(" ATEXIT", ""), me, "model", taint))
         # ---- one-directional refinement against the reference decoders
         idx = [i for i, me in enumerate(metas) if me["syn"] in MODEL_CMD and len(me["data"]) <= MODEL_MAXLEN and results[i] is not None]
@@ -191,6 +236,11 @@ def model_layer(run, rng, tier, model):
         dl = ["der %s %s" % (metas[i]["case"]["ts"], f[2]) for i, f in acc]
         do = model_par(model, dl)
         accepted = {i: (int(f[1]), f[2], d) for (i, f), d in zip(acc, do)}
+        # types whose UPER encoding has no bits at all (the model then accepts ANY buffer, reporting one octet; the C's
+        # uper_decode_complete wants that octet to exist and to be zero: X.691 11.1.3)
+        tss = sorted(set(me["case"]["ts"] for me in metas))
+        zb = model_par(model, ["uperdec 0 %s -" % ts for ts in tss])
+        zero_bit = {ts for ts, o in zip(tss, zb) if o.startswith("OK ")}
         for i in idx:
             me, r = metas[i], results[i]
             syn = me["syn"]
@@ -199,7 +249,13 @@ def model_layer(run, rng, tier, model):
                 run.count("model_%s_accepts" % syn)
                 if me["kind"] != "valid":
                     run.count("model_%s_accepts_mutant" % syn)
-                good = (r["rc"] == "OK" and r["consumed"] == n and r["der"] == d)
+                if syn == "uper" and me["case"]["ts"] in zero_bit:
+                    data = me["data"]
+                    exp = ("MORE", 0, "-") if len(data) == 0 else (("OK", 1, d) if data[0] == 0 else ("FAIL", 0, "-"))
+                    run.count("uper_zero_bit_type")
+                    good = (r["rc"], r["consumed"], r["der"]) == exp
+                else:
+                    good = (r["rc"] == "OK" and r["consumed"] == n and r["der"] == d)
                 if not good:
                     refine_disagreement(run, m, lines[i], outs[i], me, r, n, v, d)
             else:
@@ -214,17 +270,52 @@ def model_layer(run, rng, tier, model):
 
 
 def refine_disagreement(run, m, line, o, me, r, n, v, d):
+    """the reference accepts and the C does not answer RC_OK / same consumed / same value: a violation unless the
+    input lies inside a recorded finding (predicate evaluated on the input and the type)"""
     syn = me["syn"]
     c = me["case"]
+    tree = m["trees"][c["tn"]]
+    fid = None
+    if syn == "uper" and (C02.ref_to_choice(m, c["tn"]) or C02.uses_choice_ref(m, dict(m["defs"])[c["tn"]])) and r["rc"] == "FAIL":
+        fid = "C01-choice-ref-no-per"
+    elif syn == "ber":
+        try:
+            acc = BerAccepted(tree, me["data"])
+            if r["rc"] == "FAIL" and acc.mixed_chains():
+                fid = "C04-ber-chain-mixed-lengths"
+            elif r["rc"] == "OK" and r["consumed"] == n and acc.negative_in_unsigned():
+                fid = "C16-umax-negative"
+        except (ValueError, IndexError):
+            pass
+    elif syn in ("oer", "uper") and r["rc"] == "FAIL" and zero_size_elem_list(tree, syn) and re.search(r"N{201,}|(O;){201,}|(S\{\}){201,}", v):
+        fid = "C04-zero-size-elements-guard"
+    if fid:
+        run.known_finding(fid, line)
+        run.count("known_" + fid)
+        return
     rep = {"what": "the reference decoder accepts this input (consumed %d, value %s) but the C returns %s" % (n, v[:200], o[:200]),
            "module": m["text"], "type": c["tn"], "model_type": c["ts"], "syntax": syn, "mutation": me["kind"], "command_line": line,
            "c": o, "model": "OK %d %s der=%s" % (n, v[:300], d[:300])}
     run.violation("refinement:Rt.%s_dec" % syn, rep)
 
 
+FOREIGN_IDS = {"C01-choice-ref-no-per", "C01-uper-semiconstrained-lb", "C16-umax-negative", "C16-ulong-signed"}
+
+
+def all_findings():
+    """own findings (findings.d/C04.json) and the findings of other properties this check meets and classifies"""
+    own = own_findings()
+    path = os.path.join(VERIF, "known_findings.json")
+    foreign = []
+    if os.path.exists(path):
+        foreign = [f for f in json.load(open(path))["findings"] if f["id"] in FOREIGN_IDS and f.get("status") == "open"]
+    ids = {f["id"] for f in own}
+    return own + [f for f in foreign if f["id"] not in ids]
+
+
 def main(tier):
     run = Run("C04", tier)
-    run.findings = own_findings() + [f for f in run.findings if f["id"] not in {x["id"] for x in own_findings()}]
+    run.findings = all_findings()
     rng = Rng(run.seed)
     if os.environ.get("C04_SKIP_PROOFS"):
         nthm, ndis, axioms, names = 0, 0, set(), []
@@ -241,6 +332,8 @@ def main(tier):
     except BuildError as e:
         run.violation("build", {"what": str(e)[-2500:]}, no_input=True)
         return run.finish("proof", (nthm, ndis))
+    if os.environ.get("C04_DUMP"):       # triage aid: every violation, not only the first 20 replays
+        json.dump(run.violations, open(os.environ["C04_DUMP"], "w"), indent=1)
     return run.finish("proof", (nthm, ndis),
                       checker_cmd="make -C /verif all && coqc -Q coq A1 coq/Props/Properties_C04.v",
                       extra_cov={"theorems": names, "modules": len(mods), "traces_validated_against_impl": run.cov["evaluations"]})
